@@ -1260,7 +1260,7 @@ func runC18(c *Ctx) {
 							continue
 						}
 						ia, ok := ld.X.(*ssa.IndexAddr)
-						if !ok || !isFieldLoad(pt.valueAt(ia.X, idx), "test.Bridge", dir.q) {
+						if !ok || !pathFieldLoad(pt, ia.X, idx, "test.Bridge", dir.q) {
 							continue
 						}
 						siteSel = x
@@ -1286,11 +1286,11 @@ func runC18(c *Ctx) {
 						}
 					}
 				case *ssa.Store:
-					if !isFieldStore(x, "test.Bridge", dir.q) {
+					if !isFieldStore(x, "test.Bridge", dir.q) && !pathFieldStore(pt, x, idx, "test.Bridge", dir.q) {
 						continue
 					}
 					sl, ok := pt.valueAt(x.Val, idx).(*ssa.Slice)
-					okS := ok && isFieldLoad(pt.valueAt(sl.X, idx), "test.Bridge", dir.q) && sl.High == nil
+					okS := ok && pathFieldLoad(pt, sl.X, idx, "test.Bridge", dir.q) && sl.High == nil
 					if okS {
 						k, isC := constInt(sl.Low)
 						okS = isC && k == 1
@@ -1522,4 +1522,25 @@ func dpipeReadPaths(o *Obligation, dr *ssa.Function, rField string) (int, []posM
 		}
 	}
 	return n, probs
+}
+
+// pathFieldLoad: v, as seen at index idx of the path, is a load of T.f - directly, or through a pointer to the field
+// that a per-direction helper was handed (*queue with queue = &br.queue0to1).
+func pathFieldLoad(pt *upath, v ssa.Value, idx int, T, f string) bool {
+	rv := pt.valueAt(v, idx)
+	if isFieldLoad(rv, T, f) {
+		return true
+	}
+	if u, ok := rv.(*ssa.UnOp); ok && u.Op == token.MUL {
+		if fr, ok := asFieldAddr(pt.valueAt(u.X, idx)); ok && fr.SName == T && fr.Field == f {
+			return true
+		}
+	}
+	return false
+}
+
+// pathFieldStore: the store writes T.f through a pointer handed to a helper.
+func pathFieldStore(pt *upath, st *ssa.Store, idx int, T, f string) bool {
+	fr, ok := asFieldAddr(pt.valueAt(st.Addr, idx))
+	return ok && fr.SName == T && fr.Field == f
 }
